@@ -487,6 +487,29 @@ def e_variable_diff():
     return u
 
 
+def e_variable_compound():
+    """A variable wrapping a compound expression that rewriting passes change (they rebuild the Variable with the
+    old label around the new expression)."""
+    u = _expr_universe()
+    t = u.t
+    w = variable(dot(t["fv"], t["fv"]) + det(t["A"]))
+    t["variable"] = w
+    u.make = lambda: 2 * exp(w) + w * t["f"]
+    return u
+
+
+def f_variable_compound():
+    u = U()
+    m = _spaces(u)
+    V = FunctionSpace(m, E.P("triangle", 1))
+    te = TestFunction(V)
+    f = Coefficient(V)
+    w = variable(inner(grad(f), grad(f)))
+    u.t["variable"] = w
+    u.make = lambda: diff(w**2, w) * f * te * dx + exp(w) * te * dx(1)
+    return u
+
+
 def e_abs_dup():
     """Contains an existing Abs/Conj/Real chain and two structurally equal but distinct subtrees."""
     u = _expr_universe()
@@ -637,6 +660,8 @@ INPUTS = {
     "expr_vector": e_vector,
     "expr_cond_geom": e_cond_geom,
     "expr_variable_diff": e_variable_diff,
+    "expr_variable_compound": e_variable_compound,
+    "variable_compound": f_variable_compound,
     "expr_abs_dup": e_abs_dup,
     "expr_arg_linear": e_arg_linear,
     "integral": i_integral,
